@@ -10,8 +10,9 @@ visited set** (a `sync.Map` created at the first cyclic relation and handed down
   ResolveExclusion                             → `exclV2`    (two unpooled goroutines; a base error wins over a subtract
                                                               `true` when it arrives first, and the other way round)
   ResolveRecursive                             → `unionV2` over both arrival orders of its two goroutines
-  iterator.NewFilteredIterator(visited, cond)  → `VExpr.iter`: visited filter *before* the condition filter, errors
-                                                              remembered and reported only if no tuple passed
+  iterator.NewFilteredIterator(cond, visited)  → `VExpr.iter`: condition filter, then visited filter (the order since
+                                                              commit 1d97cee), errors remembered and reported only if no
+                                                              tuple passed
 
 The engine is run with concurrency limit 1 in the exact correspondence: pooled handlers then run one
 after the other in submission order, so the arrival order at `union` / `intersection` is the program
@@ -23,9 +24,8 @@ threaded deterministically.
 Ghost state (exists only in the model, used by the soundness proof and by the diagnosis of the driver):
   * an outcome carries a `taint` bit, set when the result relies on a step that is not justified by the
     semantics: an evaluation error swallowed by the filtered iterator, a tuple skipped because its *key*
-    was in the visited set although the *sub-problem* behind the key is a different one (tuple-to-userset
-    keys are parent objects, not `object#relation`), or skipped because of a mark that was placed for a tuple
-    which the condition filter then dropped (the mark is placed before the condition is evaluated);
+    was in the visited set although the *sub-problem* behind the key is a different one (before commit
+    1d97cee tuple-to-userset keys were parent objects, not `object#relation`: finding V2-A);
   * a visited entry remembers the sub-problem it was placed for and whether that sub-problem is evaluated.
 -/
 import OpenFGAVerif.Spec.BoolSys
@@ -166,35 +166,33 @@ section
 variable {N : Type} [DecidableEq N]
 
 /-- `visited.LoadOrStore(key)` for a key that was not there; the ghost part: the sub-problem behind the
-key and whether it is going to be evaluated (the condition filter runs afterwards) -/
+key and whether it is going to be evaluated (always, since commit 1d97cee: only tuples that passed the
+condition filter reach the visited filter) -/
 def mark (it : Item N) (V : Vis N) : Vis N :=
   match it.child with
   | some n => (it.key, n, decide (it.cond = .tt)) :: V
   | none => V
 
-/-- `filter.Next`: pull raw tuples until one passes both filters.  Returns the passed sub-problem (if
-any), the remaining raw tuples and the new state. -/
+/-- `filter.Next`: pull raw tuples until one passes both filters — the condition filter first, then the
+visited filter (`buildIterator` since commit 1d97cee; before it the visited filter ran first, so that a
+tuple dropped by its condition had already claimed its key: finding V2-B).  Returns the passed
+sub-problem (if any), the remaining raw tuples and the new state. -/
 def pull (active : Bool) : List (Item N) → IterSt N → Option (Option N) × List (Item N) × IterSt N
   | [], st => (none, [], st)
   | it :: rest, st =>
-    match (if active then st.vis else none) with
-    | some V =>
-      match V.find? (fun e => e.1 = it.key) with
-      | some e =>
-        -- seen: skipped.  Unjustified when the mark belongs to another sub-problem or to a dropped tuple.
-        let bad := !(e.2.2 && it.child = some e.2.1)
-        pull active rest (if bad then { st with acc := st.acc ++ [[.ok false true]] } else st)
-      | none =>
-        let st := { st with vis := some (mark it V) }
-        match it.cond with
-        | .tt => (some it.child, rest, { st with onceValid := true })
-        | .ff => pull active rest st
-        | _ => pull active rest { st with lastErr := true }
-    | none =>
-      match it.cond with
-      | .tt => (some it.child, rest, { st with onceValid := true })
-      | .ff => pull active rest st
-      | _ => pull active rest { st with lastErr := true }
+    match it.cond with
+    | .tt =>
+      match (if active then st.vis else none) with
+      | some V =>
+        match V.find? (fun e => e.1 = it.key) with
+        | some e =>
+          -- seen: skipped.  Unjustified when the mark belongs to another sub-problem.
+          let bad := !(e.2.2 && it.child = some e.2.1)
+          pull active rest (if bad then { st with acc := st.acc ++ [[.ok false true]] } else st)
+        | none => (some it.child, rest, { st with vis := some (mark it V), onceValid := true })
+      | none => (some it.child, rest, { st with onceValid := true })
+    | .ff => pull active rest st
+    | _ => pull active rest { st with lastErr := true }
 
 /-- The producer/consumer loop of `DefaultStrategy.execute` with concurrency limit 1: the producer
 (`userset` / `ttu` handler) pulls tuples through the filters and runs ahead of the consumer, which
